@@ -1200,7 +1200,49 @@ def single_cell(repo: Repo) -> RuleRun:
                 raise AnalysisError(f"{fn.name}(length={length}, count=1, size={length}) not evaluable over exact rationals: {err}") from err
             val = exact.value(got) if isinstance(got, exact.Rat) else got
             r.check(val == 1, fn, f"length {length}: one cell -> ratio 1", f"{fn.name}(length={length}, count=1, size={length}) returns {val!r}; one cell has ratio 1", fn.node, key=f"single:{length}")
-    r.require(n >= 6, f"only {n} single-cell scenarios found")
+    # 'reversing a chop yields the same count and the reciprocal expansion': one cell with a size that is NOT the length is treated alike
+    # by the two siblings - (count 1, start size s) reversed is (count 1, end size s); both return 1 or both raise
+    def outcome(fn, length, size):
+        def hook2(ev, call, name):
+            nm = (name or "").split(".")[-1]
+            if nm == "brentq":
+                return Sym("root")
+            if nm == "eval" and len(call.args) == 1 and isinstance(ev.eval(call.args[0]), str):
+                return bool(eval(compile(ast.parse(ev.eval(call.args[0]), mode="eval"), "<cond>", "eval"), {"__builtins__": {}}))
+            if nm == "isinstance":
+                return True
+            if nm == "float" and len(call.args) == 1 and isinstance(ev.eval(call.args[0]), str):
+                return float(ev.eval(call.args[0]))
+            return NO_MATCH
+
+        ev = exact.evaluator(repo, fn.module, extra=hook2)
+        try:
+            got = ev.call_funcinfo(fn, [exact.c(length), 1, exact.c(size)])
+        except Raised as err:
+            return f"raises {err.exc_name}"
+        except ZeroDivisionError:
+            return "raises ZeroDivisionError"
+        except NotEvaluable as err:
+            raise AnalysisError(f"{fn.name}(length={length}, count=1, size={size}) not evaluable: {err}") from err
+        return f"returns {exact.value(got) if isinstance(got, exact.Rat) else got}"
+
+    pair = {fn.name.rsplit("__", 1)[-1]: fn for fn in relation_functions(repo) if fn.name.startswith("get_c2c_expansion__count__") and fn.name.endswith("_size")}
+    if set(pair) == {"start_size", "end_size"}:
+        for length, size in ((Fraction(1), Fraction(1, 2)), (Fraction(25), Fraction(10)), (Fraction(1), Fraction(3, 2))):
+            a, b = outcome(pair["start_size"], length, size), outcome(pair["end_size"], length, size)
+            n += 1
+            kind = lambda o: "raises" if o.startswith("raises") else o  # noqa: E731
+            r.check(
+                kind(a) == kind(b),
+                pair["end_size"],
+                f"count 1, size {size} on length {length}: both siblings '{kind(a)}'",
+                f"get_c2c_expansion__count__start_size(length={length}, count=1, start_size={size}) {a} but get_c2c_expansion__count__end_size(length={length}, count=1, end_size={size}) {b}: "
+                "Chop(count=1, start_size=s) reversed by Chop.invert() is Chop(count=1, end_size=s) - the same cell seen from the other end - and must give the same count and the reciprocal ratio, "
+                "not a result on one side and an error on the other",
+                pair["end_size"].node,
+                key=f"reversal:{length}:{size}",
+            )
+    r.require(n >= 9, f"only {n} single-cell scenarios found")
     return r
 
 
